@@ -365,7 +365,8 @@ class Verifier:
                 res.status = "vacuous"
                 res.message = "no feasible path reaches an exit of the function"
         except EngineError as ex:
-            res.status = "error"
+            # a contract clause naming a local that the function no longer has is a stale contract (undecided), not a checker crash
+            res.status = "stale" if ("spec expression" in str(ex) and "unresolved name" in str(ex)) else "error"
             res.message = f"{ex}"
         except Exception as ex:  # engine crash
             res.status = "error"
